@@ -534,6 +534,11 @@ func predIndexing(c idxCase, o *evid.Obs) error {
 			return err
 		}
 	}
+	hs.Close()
+	if hs.NotQuiet {
+		o.Discard("not-quiet-before-stop")
+		return nil
+	}
 	if knownHit {
 		o.Known(FindingAnnouncedBeforeInsert)
 	}
